@@ -25,6 +25,7 @@ import (
 	"bytes"
 	"fmt"
 	"sync"
+	"sync/atomic"
 	"testing"
 	"time"
 	"unicode/utf8"
@@ -43,16 +44,19 @@ type vfC19Msg struct {
 }
 
 type vfC19Chan struct {
-	Creator    int           `json:"creator"` // 0 offerer, 1 answerer
-	PreConnect bool          `json:"pre_connect"`
-	Label      string        `json:"label"`
-	Protocol   string        `json:"protocol"`
-	Ordered    bool          `json:"ordered"`
-	Rel        string        `json:"rel"` // "" | rexmit | timed
-	RelVal     int           `json:"rel_val"`
-	Negotiated bool          `json:"negotiated"` // created on both sides before connect with id NegID
-	NegID      int           `json:"neg_id"`
-	Msgs       [2][]vfC19Msg `json:"msgs"` // [0]: sent by the offerer's end, [1]: by the answerer's end
+	Creator    int    `json:"creator"` // 0 offerer, 1 answerer
+	PreConnect bool   `json:"pre_connect"`
+	Label      string `json:"label"`
+	Protocol   string `json:"protocol"`
+	Ordered    bool   `json:"ordered"`
+	Rel        string `json:"rel"` // "" | rexmit | timed
+	RelVal     int    `json:"rel_val"`
+	Negotiated bool   `json:"negotiated"` // created on both sides before connect with id NegID
+	NegID      int    `json:"neg_id"`
+	// in-band only, at most one per case: the far side's OnDataChannel callback sleeps this long
+	// BEFORE it registers OnMessage, while the creator starts sending from its own OnOpen
+	SlowCbMs int           `json:"slow_cb_ms,omitempty"`
+	Msgs     [2][]vfC19Msg `json:"msgs"` // [0]: sent by the offerer's end, [1]: by the answerer's end
 }
 
 type vfC19Case struct {
@@ -141,6 +145,27 @@ type vfC19Live struct {
 	recs [2]*vfC19Recorder // recs[s] records what end s RECEIVES
 	sent [2]int            // messages handed to Send without error by end s (written by its sender goroutine)
 	serr [2]error
+
+	eagerDone chan struct{} // slow-callback channel: closed when the creator's OnOpen has sent its list
+}
+
+const vfC19SlowLabel = "vf-slow-callback"
+
+func (lv *vfC19Live) sendAll(s int) {
+	for _, m := range lv.spec.Msgs[s] {
+		p := vfC19Payload(m)
+		var serr error
+		if m.Text {
+			serr = lv.ends[s].SendText(string(p))
+		} else {
+			serr = lv.ends[s].Send(p)
+		}
+		if serr != nil {
+			lv.serr[s] = serr
+			return
+		}
+		lv.sent[s]++
+	}
 }
 
 const (
@@ -178,6 +203,15 @@ func vfC19Run(v *vfT, c vfC19Case) {
 	for s := 0; s < 2; s++ {
 		s := s
 		pcs[s].OnDataChannel(func(d *DataChannel) {
+			// a slow application callback: pion must hold the channel's messages until it returns
+			if d.Label() == vfC19SlowLabel {
+				for _, sp := range c.Chans {
+					if sp.SlowCbMs > 0 && !sp.Negotiated && sp.Label == vfC19SlowLabel {
+						time.Sleep(time.Duration(sp.SlowCbMs) * time.Millisecond)
+						break
+					}
+				}
+			}
 			rec := &vfC19Recorder{}
 			rec.attach(d)
 			amu.Lock()
@@ -235,6 +269,20 @@ func vfC19Run(v *vfT, c vfC19Case) {
 			}
 			lv.recs[sp.Creator&1].attach(d)
 			lv.ends[sp.Creator&1] = d
+			if sp.SlowCbMs > 0 && sp.Label == vfC19SlowLabel {
+				// the creator sends as soon as ITS end reports open (DCEP ack), i.e. while the
+				// far side's callback may still be running
+				lv.eagerDone = make(chan struct{})
+				var once sync.Once
+				cr := sp.Creator & 1
+				d.OnOpen(func() {
+					once.Do(func() {
+						lv.sendAll(cr)
+						close(lv.eagerDone)
+					})
+				})
+				v.Label(fmt.Sprintf("slow-callback=%dms", sp.SlowCbMs))
+			}
 		}
 		lives[i] = lv
 		return true
@@ -350,6 +398,7 @@ func vfC19Run(v *vfT, c vfC19Case) {
 
 	// ---- traffic -----------------------------------------------------------------------------
 	var wg sync.WaitGroup
+	var eagerTimeouts atomic.Int32
 	for _, lv := range lives {
 		if lv == nil {
 			continue
@@ -358,24 +407,23 @@ func vfC19Run(v *vfT, c vfC19Case) {
 			wg.Add(1)
 			go func(lv *vfC19Live, s int) {
 				defer wg.Done()
-				for _, m := range lv.spec.Msgs[s] {
-					p := vfC19Payload(m)
-					var serr error
-					if m.Text {
-						serr = lv.ends[s].SendText(string(p))
-					} else {
-						serr = lv.ends[s].Send(p)
+				if lv.eagerDone != nil && s == lv.spec.Creator&1 {
+					select { // already sent (or being sent) from the creator's OnOpen
+					case <-lv.eagerDone:
+					case <-time.After(vfC19Watchdog):
+						eagerTimeouts.Add(1)
 					}
-					if serr != nil {
-						lv.serr[s] = serr
-						return
-					}
-					lv.sent[s]++
+					return
 				}
+				lv.sendAll(s)
 			}(lv, s)
 		}
 	}
 	wg.Wait()
+	if eagerTimeouts.Load() > 0 {
+		v.Label("inconclusive:creator-onopen-never-fired")
+		return
+	}
 
 	reliable := func(lv *vfC19Live) bool { return lv.spec.Ordered && lv.spec.Rel == "" }
 	complete := func() bool {
@@ -596,6 +644,7 @@ func TestVerif_C19_Delivery(t *testing.T) {
 		Assumptions: []string{
 			"messages are sent after both ends were observed open, one sender goroutine per end, so the send order is defined",
 			"negotiated channels are created on both sides before signalling",
+			"slow-callback channel (at most one per case, in-band): the far side's OnDataChannel callback sleeps 5/700/1200 ms before it registers OnMessage while the creator sends its list from its own OnOpen; those messages were sent while the channel was open, so the unchanged oracle applies",
 			"text payloads are arbitrary byte strings (ASCII, valid multi-byte UTF-8, ill-formed UTF-8: lone continuation bytes, truncated runes, C0 80, encoded surrogates, FF/FE, arbitrary bytes); binary payloads use the same styles, so some are valid text; SendText takes a Go string, which may hold any bytes, and the statement promises identical bytes",
 			"only reliable ordered channels are asserted (the statement is silent on the others); their far end is compared as a prefix at any time and as the full list when BufferedAmount()==0 on the sender, the pair is connected, the ends are open and 5 s passed without a delivery",
 			"the vnet adds delay and jitter (reordering) but never drops",
@@ -606,6 +655,7 @@ func TestVerif_C19_Delivery(t *testing.T) {
 			c.VNet = &vfFamDVNet{MinDelayMs: rapid.IntRange(0, 20).Draw(v.R, "delay"), MaxJitterMs: rapid.SampledFrom([]int{0, 1, 5, 10, 30}).Draw(v.R, "jitter")}
 		}
 		budget := 600 << 10
+		slowUsed := false
 		n := rapid.IntRange(1, 4).Draw(v.R, "nchan")
 		for i := 0; i < n; i++ {
 			ch := vfC19Chan{
@@ -626,6 +676,16 @@ func TestVerif_C19_Delivery(t *testing.T) {
 			}
 			ch.Msgs[0] = vfC19GenMsgs(v, "m0", &budget)
 			ch.Msgs[1] = vfC19GenMsgs(v, "m1", &budget)
+			if !slowUsed && !ch.Negotiated && rapid.IntRange(0, 3).Draw(v.R, "slow_cb") == 0 {
+				// mostly harmless delays, the long ones in about 1 case out of 6
+				ch.SlowCbMs = rapid.SampledFrom([]int{5, 5, 700, 1200}).Draw(v.R, "slow_cb_ms")
+				ch.Label = vfC19SlowLabel
+				ch.Ordered, ch.Rel, ch.RelVal = true, "", 0 // asserted kind
+				slowUsed = true
+				if len(ch.Msgs[ch.Creator]) == 0 {
+					ch.Msgs[ch.Creator] = []vfC19Msg{{Size: 17, Text: true, Seed: 1}, {Size: 1200, Seed: 2, Style: 3}, {Size: 0, Text: true, Seed: 3}}
+				}
+			}
 			c.Chans = append(c.Chans, ch)
 		}
 		return c
